@@ -61,7 +61,7 @@ func secretOf(access string) (string, bool) {
 var defects = []string{"no-auth", "empty-auth", "malformed", "unknown-key", "wrong-secret", "sig-digit", "sig-zero",
 	"alter-header", "dup-header", "alter-query", "alter-path", "alter-payload", "payload-hash", "date-skew", "scope-date", "scope-region",
 	"scope-service", "scope-term"}
-var presignDefects = []string{"expired", "expires-altered", "sig-digit", "sig-zero", "alter-query", "alter-path", "param-missing",
+var presignDefects = []string{"expired", "date-future", "expires-altered", "sig-digit", "sig-zero", "alter-query", "alter-path", "param-missing",
 	"unknown-key", "wrong-secret", "scope-region"}
 
 // buildValid returns the signed, undamaged request.
@@ -180,7 +180,8 @@ func damage(r *s3c.Req, c caseA, now time.Time) {
 		case "expired":
 			represign(cr, now.Add(-2*time.Hour), 60+c.Arg%600, gw.Region)
 		case "date-future":
-			represign(cr, now.Add(48*time.Hour), 300, gw.Region)
+			// dated ahead of the clock by more than the tolerated skew: the validity window has not begun
+			represign(cr, now.Add(time.Duration(1+c.Arg%9000)*time.Hour), 300, gw.Region)
 		case "expires-altered":
 			qset("X-Amz-Expires", fmt.Sprint(301+c.Arg%100000))
 		case "sig-digit":
